@@ -28,10 +28,12 @@ const (
 	kU            // bool: may turn false -> true
 	kD            // bool: may turn true -> false
 	kTop          // anything
+	kCutBefore    // slice: first result of Cut on a growing input: stable once the separator was found
+	kCutAfter     // slice: second result of Cut on a growing input: an extension once the separator was found
 )
 
 func (k kind) String() string {
-	return [...]string{"?", "S", "GROW", "EXT", "SOF", "U", "D", "TOP"}[k]
+	return [...]string{"?", "S", "GROW", "EXT", "SOF", "U", "D", "TOP", "CUT0", "CUT1"}[k]
 }
 
 type ctx struct {
@@ -118,6 +120,37 @@ func (a *analysis) k(v ssa.Value) kind {
 // where a dominating test established that it was found.
 func (a *analysis) kAt(v ssa.Value, blk *ssa.BasicBlock) kind {
 	kk := a.k(v)
+	if kk == kCutBefore || kk == kCutAfter {
+		// where the same Cut's `found` result is known to be true the separator was found on the shorter header
+		// already: at the same place on the longer one (first occurrence), so the part before it is the same and the
+		// part after it is extended
+		ex, _ := v.(*ssa.Extract)
+		if ex != nil && blk != nil {
+			for d := blk; d != nil; d = d.Idom() {
+				if len(d.Preds) != 1 {
+					continue
+				}
+				p := d.Preds[0]
+				iff, ok := p.Instrs[len(p.Instrs)-1].(*ssa.If)
+				if !ok || p.Succs[0] == p.Succs[1] {
+					continue
+				}
+				onTrue := p.Succs[0] == d
+				cond := iff.Cond
+				neg := false
+				if u, ok := cond.(*ssa.UnOp); ok && u.Op == token.NOT {
+					cond, neg = u.X, true
+				}
+				if f, ok := cond.(*ssa.Extract); ok && f.Tuple == ex.Tuple && f.Index == 2 && onTrue != neg {
+					if kk == kCutBefore {
+						return kStable
+					}
+					return kExt
+				}
+			}
+		}
+		return kTop
+	}
 	if kk != kSOF {
 		return kk
 	}
@@ -309,9 +342,15 @@ func (a *analysis) compute(v ssa.Value) kind {
 			if xk == kSOF && constOf(x.Y) {
 				return kU
 			}
+			if xk == kGrow && isLenCall(x.X) && isZeroConst(x.Y) {
+				return kU // len(...) != 0: a growing length leaves zero once and for all
+			}
 		case token.EQL:
 			if xk == kSOF && constOf(x.Y) {
 				return kD
+			}
+			if xk == kGrow && isLenCall(x.X) && isZeroConst(x.Y) {
+				return kD // len(...) == 0 may turn false, never true again
 			}
 		case token.ADD:
 			if (xk == kSOF && yk == kStable) || (xk == kStable && yk == kSOF) {
@@ -341,6 +380,25 @@ func (a *analysis) compute(v ssa.Value) kind {
 	case *ssa.MakeInterface:
 		return at(x.X)
 	case *ssa.Extract:
+		if call, ok := x.Tuple.(*ssa.Call); ok {
+			if g := call.Call.StaticCallee(); g != nil && (g.String() == "bytes.Cut" || g.String() == "strings.Cut") && len(call.Call.Args) == 2 {
+				k0, k1 := a.kAt(call.Call.Args[0], call.Block()), a.kAt(call.Call.Args[1], call.Block())
+				switch {
+				case k0 == kStable && k1 == kStable:
+					return kStable
+				case k0 == kExt && k1 == kStable:
+					switch x.Index {
+					case 0:
+						return kCutBefore
+					case 1:
+						return kCutAfter
+					default:
+						return kU // found: may turn true when the separator comes into view
+					}
+				}
+				return kTop
+			}
+		}
 		if k := at(x.Tuple); k != kTop {
 			return k
 		}
@@ -418,6 +476,24 @@ func (a *analysis) compute(v ssa.Value) kind {
 		}
 	}
 	return kTop
+}
+
+func isLenCall(v ssa.Value) bool {
+	c, ok := v.(*ssa.Call)
+	if !ok {
+		return false
+	}
+	b, ok := c.Call.Value.(*ssa.Builtin)
+	return ok && b.Name() == "len"
+}
+
+func isZeroConst(v ssa.Value) bool {
+	k, ok := v.(*ssa.Const)
+	if !ok || k.Value == nil || k.Value.Kind() != constant.Int {
+		return false
+	}
+	i, exact := constant.Int64Val(k.Value)
+	return exact && i == 0
 }
 
 // constLiteral: the local is filled only with constants (element by element,
